@@ -17,7 +17,7 @@ pub fn ops(thorough: bool, axis: Axis, pair: bool) -> Vec<SOp> {
                 if s + d < 1 {
                     continue;
                 }
-                if !thorough && d.abs() == 3 && n == 2 {
+                if (!thorough && d.abs() == 3 && n == 2) || (pair && d.abs() == 3) {
                     continue;
                 }
                 v.push(SOp::Move { s, n, d });
@@ -44,7 +44,7 @@ pub fn run(run: &mut Run) {
         "orientations": ["rows", "columns"],
         "variants": "3 (variant 1 has a hidden row/column at position 4: UserModel moves across it)",
         "interesting_contents": st::CONTENTS,
-        "interesting_cells_per_workbook": if thorough { "1 (all variants) and 2 (variant 0, block size <= 2)" } else { "1" },
+        "interesting_cells_per_workbook": if thorough { "1 (all variants) and 2 (variant 0, unordered content pairs, block size <= 2, |delta| <= 2)" } else { "1" },
         "block_start": "1..=5 and against the last row/column",
         "block_size": if thorough { "1..=3" } else { "1..=2" },
         "delta": "+-1..+-3",
